@@ -152,6 +152,27 @@ impl FlowSetBody {
                 parser
                     .templates
                     .insert(template.template_id, template.clone());
+                // A Template Set may carry several template records (RFC 7011 3.4.1). The
+                // reported body holds the first one (the others stay, verbatim, in its
+                // `padding`), but every record is learned.
+                let mut rest = template.padding.clone();
+                while rest.len() >= 4 {
+                    let Ok((_, next)) = Template::parse(&rest) else {
+                        break;
+                    };
+                    if !next.is_valid() || next.template_id <= SET_MIN_RANGE {
+                        break;
+                    }
+                    rest = next.padding.clone();
+                    parser.options_templates.remove(&next.template_id);
+                    parser.templates.insert(
+                        next.template_id,
+                        Template {
+                            padding: vec![],
+                            ..next
+                        },
+                    );
+                }
                 Ok((i, FlowSetBody::Template(template)))
             }
             OPTIONS_TEMPLATE_ID => {
@@ -166,6 +187,25 @@ impl FlowSetBody {
                 parser
                     .options_templates
                     .insert(options_template.template_id, options_template.clone());
+                // further options template records of the same set: see above
+                let mut rest = options_template.padding.clone();
+                while rest.len() >= 6 {
+                    let Ok((_, next)) = OptionsTemplate::parse(&rest) else {
+                        break;
+                    };
+                    if !next.is_valid() || next.template_id <= SET_MIN_RANGE {
+                        break;
+                    }
+                    rest = next.padding.clone();
+                    parser.templates.remove(&next.template_id);
+                    parser.options_templates.insert(
+                        next.template_id,
+                        OptionsTemplate {
+                            padding: vec![],
+                            ..next
+                        },
+                    );
+                }
                 Ok((i, FlowSetBody::OptionsTemplate(options_template)))
             }
             _ if parser.templates.contains_key(&id) => {
@@ -281,6 +321,12 @@ pub struct OptionsTemplate {
 pub struct Template {
     pub template_id: u16,
     pub field_count: u16,
+    // A template record holds exactly `field_count` field specifiers; what follows in the set
+    // (further template records, padding) is kept verbatim in `padding`.
+    #[nom(
+        ErrorIf = "usize::from(field_count).saturating_mul(4) > i.len()",
+        Parse = "count(TemplateField::parse, usize::from(field_count))"
+    )]
     pub fields: Vec<TemplateField>,
     #[serde(skip_serializing)]
     pub padding: Vec<u8>,
